@@ -102,6 +102,22 @@ CLAIMS = {
         technique='Lean 4 proof (arithmetic + induction for the codec; refinement to a set-of-paths spec for the state) '
                   '+ correspondence',
         ref='DESIGN.md §5 C20'),
+    'C06': dict(
+        text='Lean 4 theorems about the parser model (hand-compiled scanners, tokeniser, attribute grammar, tag roles, '
+             'stack builder, per-tag constructors), all total functions: gen_regexes / gen_commands / '
+             'gen_param_tables (obligations on the regex sources, command and attribute tables extracted from the '
+             'source on every run), candidate_len_pos / matchEpfs_len_pos / scan_progress (every tag consumes >= 1 '
+             'character), tokens_complete / tokens_tail_tagfree (the fuel |src|+1 always suffices: tokenising '
+             'terminates with nothing left unscanned), build_error_index / error_located / tokStart_spec (every error '
+             'is reported for a token of the source, whose text is the slice at the reported offset), '
+             'unclosed_block_rejected; correspondence on valid templates in 3 syntaxes, single mutations, all '
+             'prefixes, junk and a 48-entry grammar-fault corpus: acceptance, compiled tree and token streams agree; '
+             'oracle: exception class, error location, pumped-family CPU time',
+        note='Trusted: Lean kernel; equivalence of the hand-compiled scanners with CPython re (validated by token '
+             'correspondence); Python expression syntax external (the model lists expressions, the harness compiles '
+             'them). Partial: running time is measured, not proved; RecursionError on nesting > ~300 is a known finding',
+        technique='Lean 4 proof (totality, progress, error-location invariants) + correspondence + timing oracle',
+        ref='DESIGN.md §5 C06'),
 }
 
 NA_REASON = 'check not built yet in this round (planned, see DESIGN.md §5)'
